@@ -261,11 +261,54 @@ def instances(t, limit: int = 32) -> List[Term]:
     return r if r is not None else [t]
 
 
+_NT_ACTIVE: Dict[str, Tuple[str, ...]] = {}     # namedtuple classes of the module under analysis (for the static _item helper)
+
+
+def _namedtuples_of(module) -> Dict[str, Tuple[str, ...]]:
+    """{class name: field names} for `X = namedtuple("X", [...])` / `"a b"` at module level and `class X(NamedTuple)`"""
+    cache = getattr(module, "_xsa_namedtuples", None)
+    if cache is not None:
+        return cache
+    out: Dict[str, Tuple[str, ...]] = {}
+    for name, v in getattr(module, "consts", {}).items():
+        if isinstance(v, ast.Call) and (A.dotted(v.func) or "").split(".")[-1] == "namedtuple" and len(v.args) >= 2:
+            f = v.args[1]
+            if isinstance(f, ast.Constant) and isinstance(f.value, str):
+                out[name] = tuple(f.value.replace(",", " ").split())
+            elif isinstance(f, (ast.List, ast.Tuple)) and all(isinstance(x, ast.Constant) and isinstance(x.value, str) for x in f.elts):
+                out[name] = tuple(x.value for x in f.elts)
+    for cname, c in getattr(module, "classes", {}).items():
+        if any(b.split(".")[-1] == "NamedTuple" for b in getattr(c, "base_names", [])):
+            out[cname] = tuple(getattr(c, "annotations", {}).keys())
+    try:
+        module._xsa_namedtuples = out
+    except Exception:
+        pass
+    return out
+
+
+def _nt_fields(nts, t):
+    """(fields, values) if t is a call of a known namedtuple class (positional / keyword arguments), else None"""
+    if not (is_call_of(t) and t[1][:1] == ("glob",) and t[1][1] in nts):
+        return None
+    fields = nts[t[1][1]]
+    vals = list(t[2])
+    if any(v[:1] == ("uop",) for v in vals) or len(vals) > len(fields):
+        return None
+    kw = dict(t[3])
+    for f in fields[len(vals):]:
+        if f not in kw:
+            return None
+        vals.append(kw[f])
+    return fields, tuple(vals)
+
+
 class Sym:
     def __init__(self, cx, selfname: Optional[str] = "self", max_alts: int = 8, max_depth: int = 40):
         self.cx = cx
         self.cfg = cx.cfg
         self.rd = cx.rd
+        _NT_ACTIVE.update(_namedtuples_of(getattr(cx, "module", None)) if getattr(cx, "module", None) is not None else {})
         fn = cx.fn
         a = fn.args
         ps = [p.arg for p in a.posonlyargs + a.args]
@@ -350,7 +393,14 @@ class Sym:
         if isinstance(e, ast.Constant):
             return ("const", repr(e.value))
         if isinstance(e, ast.Attribute):
-            return ("attr", rec(e.value), e.attr)
+            v = rec(e.value)
+            nts = _namedtuples_of(getattr(self.cx, "module", None))
+            if nts:
+                for a in alts(v):
+                    nf = _nt_fields(nts, a)
+                    if nf is not None and e.attr in nf[0] and len(alts(v)) == 1:
+                        return nf[1][nf[0].index(e.attr)]
+            return ("attr", v, e.attr)
         if isinstance(e, ast.Subscript):
             v, i = rec(e.value), rec(e.slice)
             if i[:1] == ("index",) and i[1] == v and isinstance(getattr(e, "ctx", None), ast.Load):
@@ -374,6 +424,23 @@ class Sym:
             pos = tuple(("uop", "*", rec(a.value)) if isinstance(a, ast.Starred) else rec(a) for a in e.args)
             kws = tuple((kw.arg or "**", rec(kw.value)) for kw in e.keywords)
             f = rec(e.func)
+            nts = _namedtuples_of(getattr(self.cx, "module", None))
+            if nts:
+                # nt._replace(f=v) is the record with that field changed; **nt._asdict() are its fields as keywords
+                if f[:1] == ("attr",) and f[2] == "_replace" and not pos:
+                    nf = _nt_fields(nts, f[1])
+                    if nf is not None and all(k in nf[0] for k, _ in kws):
+                        d = dict(kws)
+                        return ("call", f[1][1], tuple(d.get(fn_, v_) for fn_, v_ in zip(nf[0], nf[1])), ())
+                if any(k == "**" for k, _ in kws):
+                    new_kws = []
+                    for k, v_ in kws:
+                        nf = _nt_fields(nts, v_[1][1]) if (k == "**" and is_call_of(v_, meth="_asdict") and not v_[2]) else None
+                        if nf is not None:
+                            new_kws.extend(zip(nf[0], nf[1]))
+                        else:
+                            new_kws.append((k, v_))
+                    kws = tuple(new_kws)
             # G = operator.attrgetter('a', 'b') at module level; G(x) is (x.a, x.b)
             if f[:1] == ("glob",) and len(pos) == 1 and not kws:
                 cv = getattr(getattr(self.cx, "module", None), "consts", {}).get(f[1])
@@ -520,6 +587,10 @@ class Sym:
             return ("key" if i == 0 else "val", term[1][1][1])
         if term[:1] == ("tuple",) and i < len(term[1]):
             return term[1][i]
+        if is_call_of(term) and term[1][:1] == ("glob",) and _NT_ACTIVE.get(term[1][1]) is not None:
+            nf = _nt_fields(_NT_ACTIVE, term)
+            if nf is not None and i < len(nf[1]):
+                return nf[1][i]
         return ("item", term, i)
 
     def _name(self, name: str, at: int, depth: int, cenv: dict) -> Term:
@@ -533,6 +604,13 @@ class Sym:
         if not defs:
             if name in self.locals:
                 return ("opaque", f"unbound:{name}")
+            # a module-level record of constants (`_EMPTY = _Rec(None, None)`) is that record
+            mod = getattr(self.cx, "module", None)
+            cv = getattr(mod, "consts", {}).get(name) if mod is not None else None
+            if isinstance(cv, ast.Call) and isinstance(cv.func, ast.Name) and cv.func.id in _namedtuples_of(mod) \
+                    and all(isinstance(a_, ast.Constant) for a_ in cv.args) and all(isinstance(k.value, ast.Constant) for k in cv.keywords):
+                return ("call", ("glob", cv.func.id), tuple(("const", repr(a_.value)) for a_ in cv.args),
+                        tuple((k.arg, ("const", repr(k.value.value))) for k in cv.keywords))
             return ("glob", name)
         self._busy.add(key)
         try:
